@@ -228,3 +228,72 @@ mk_loader('loaders.load_declared_schemas.include.base_url', 'SchemaLoader.load_d
           'load_declared_schemas hands the base URL of the schema document to include_schema for xs:include / redefine / override')
 for _callee in ('import_schema', 'include_schema'):
     mk_loader(f'loaders.{_callee}.base_url', f'SchemaLoader.{_callee}', 'load_schema', ('base_url',), f'{_callee} forwards its base_url argument to load_schema')
+
+
+# ------------------------------------------------------------------ documents.get_resource_schema: a given schema instance is the schema that is used (C04)
+t = Target('documents.get_resource_schema.given_instance', ['C04'], 'xmlschema/documents.py', 'get_resource_schema',
+           note='the helper behind every package-level function and XmlDocument: called with a schema INSTANCE whose maps hold the namespace of the document root, it returns that very instance - '
+                'whatever the location hints of the document say; an instance is also what it returns when location hints are not to be used; without a schema argument and without hints '
+                'it raises XMLSchemaValueError (or returns the meta-schema / a dummy schema in the documented cases) - it never invents a schema from nothing',
+           assumes=['fetch_schema_locations, the schema constructor, issubclass and the map lookup are uninterpreted; only the decision structure of the helper is proved'])
+
+
+@t.symbolic
+def _(run):
+    import z3, ast
+    from pyvc.se import new_state, VObj, VOpt, VBool, VStr, VExc, VTuple, OPAQUE, NONE, SV, Unsupported
+    ex = run.exec(); st = new_state()
+    is_inst, given_none, loaded, hints, fetch_fails, cls_none, cls_ok = (z3.Bool(n) for n in ('schema_is_an_instance', 'schema_is_None', 'root_namespace_loaded_in_the_schema', 'use_location_hints', 'no_location_found', 'cls_is_None', 'cls_is_a_schema_class'))
+    st.objf['schema'] = {}; st.objf['resource'] = {}; st.objf['built'] = {}; st.objf['cls'] = {}
+    st.env.update(resource=VObj('resource'), schema=VOpt(given_none, VObj('schema')), cls=VOpt(cls_none, VObj('cls')), validation=VStr(z3.String('validation')), locations=OPAQUE,
+                  use_location_hints=VBool(hints), kwargs=OPAQUE)
+    st.ghost['built'] = ()
+
+    def isinstance_(e, s, r, a, k):
+        tn = ast.unparse(a[1])
+        if tn == 'XMLSchemaBase': return VBool(z3.And(z3.Not(given_none), is_inst))
+        raise Unsupported('isinstance ' + tn)
+    ex.callees['isinstance'] = isinstance_
+    ex.callees['issubclass'] = lambda e, s, r, a, k: VBool(cls_ok)
+    ex.names.update(XMLSchemaBase=OPAQUE, XMLSchema10=VObj('cls'), XSD_NAMESPACE=VStr(SV('http://www.w3.org/2001/XMLSchema')), XSI_TYPE=VStr(SV('{http://www.w3.org/2001/XMLSchema-instance}type')))
+    from xmlschema.exceptions import XMLSchemaTypeError, XMLSchemaValueError
+    ex.callees['XMLSchemaTypeError'] = lambda e, s, r, a, k: VExc(XMLSchemaTypeError)
+    ex.callees['XMLSchemaValueError'] = lambda e, s, r, a, k: VExc(XMLSchemaValueError)
+    ex.callees['_'] = lambda *a: OPAQUE; ex.callees['format'] = lambda *a: OPAQUE
+    ex.callees['get_dummy_schema'] = lambda e, s, r, a, k: VObj('dummy'); st.objf['dummy'] = {}
+
+    def fetch(e, s, r, a, k):
+        ex.pending_raise.append((fetch_fails, VExc(ValueError)))
+        return VTuple([VStr(z3.String('schema_location')), OPAQUE])
+    ex.callees['fetch_schema_locations'] = fetch
+    orig_call, orig_compare, orig_attr, orig_assign = ex.e_Call, ex.e_Compare, ex.e_Attribute, ex.assign
+
+    def e_Call(e, s):
+        if isinstance(e.func, ast.Name) and e.func.id == 'cls':
+            s.ghost['built'] += (ast.unparse(e.args[0]) if e.args else '?',); return VObj('built')
+        return orig_call(e, s)
+    ex.e_Call = e_Call
+
+    def e_Compare(e, s):
+        src = ast.unparse(e)
+        if src == 'resource.namespace in schema.maps.namespaces': return VBool(loaded)
+        if src == 'XSD_NAMESPACE == resource.namespace': return VBool(z3.Bool('root_is_in_the_XSD_namespace'))
+        if src == 'XSI_TYPE in resource.root.attrib': return VBool(z3.Bool('root_has_xsi_type'))
+        return orig_compare(e, s)
+    ex.e_Compare = e_Compare
+    ex.e_Attribute = lambda e, s: VObj('meta') if ast.unparse(e) == 'cls.meta_schema' else OPAQUE if ast.unparse(e).startswith('resource.root') else orig_attr(e, s)
+    st.objf['meta'] = {}
+    ex.assign = lambda tg, v, s: [('fall', None, s)] if ast.unparse(tg) == "kwargs['locations']" else orig_assign(tg, v, s)
+    pre = z3.Implies(is_inst, z3.Not(given_none))
+    run.inputs.update(schema_is_an_instance=is_inst, schema_is_None=given_none, namespace_loaded=loaded, use_location_hints=hints, no_location_found=fetch_fails)
+    outs = ex.run(st, pre)
+    given = lambda v: isinstance(v, VObj) and v.name == 'schema' or (isinstance(v, VOpt) and isinstance(v.val, VObj) and v.val.name == 'schema')
+
+    def keeps(kind, v, s):
+        cond = z3.And(is_inst, z3.Or(loaded, z3.Not(hints), fetch_fails), z3.Or(cls_none, cls_ok))
+        return z3.Implies(cond, z3.BoolVal(kind == 'return' and given(v) and not s.ghost['built']))
+
+    def never_from_nothing(kind, v, s):
+        cond = z3.And(given_none, z3.Or(z3.Not(hints), fetch_fails), z3.Not(z3.Bool('root_is_in_the_XSD_namespace')), z3.Not(z3.Bool('root_has_xsi_type')), st.env['validation'].t != SV('skip'), z3.Or(cls_none, cls_ok))
+        return z3.Implies(cond, z3.BoolVal(kind == 'raise' and isinstance(v, VExc) and v.cls is XMLSchemaValueError))
+    run.post(ex, outs, pre, {'a-given-instance-that-knows-the-root-namespace-is-returned-as-it-is': keeps, 'no-schema-argument-and-no-hint-is-an-error': never_from_nothing})
